@@ -138,21 +138,37 @@ def run_property(prop, rules, tier, seed, level_text, assumptions):
         pass
     try:
         ctx = Ctx(tier=tier)
-        results = []
-        for r in rules:
-            res = r(ctx)
-            if isinstance(res, list):
-                results.extend(res)
-            else:
-                results.append(res)
     except AnalysisError as e:
         print("ANALYSIS-ERROR property=%s: %s" % (prop, e))
         return 2
-    except Exception as e:      # noqa: BLE001 - a defect of the analysis itself is never a verdict about the code
-        import traceback
-        tb = traceback.format_exc().strip().splitlines()
-        print("ANALYSIS-ERROR property=%s: internal error of the analysis (%s: %s) at %s" % (prop, type(e).__name__, e, tb[-3].strip() if len(tb) >= 3 else "?"))
-        return 2
+    results = []
+    # every rule is run; a rule that cannot follow the code yields no verdict of its own (its partial results are discarded) but
+    # does not silence what the other rules decide: a violation found by a rule that completed stands (exit 1), and the check is
+    # an analysis error (exit 2, no VIOLATION line) only when no completed rule reports anything
+    errors = []
+    for r in rules:
+        try:
+            res = r(ctx)
+        except AnalysisError as e:
+            errors.append("%s" % e)
+            continue
+        except Exception as e:      # noqa: BLE001 - a defect of the analysis itself is never a verdict about the code
+            import traceback
+            tb = traceback.format_exc().strip().splitlines()
+            errors.append("internal error of the analysis (%s: %s) at %s" % (type(e).__name__, e, tb[-3].strip() if len(tb) >= 3 else "?"))
+            continue
+        if isinstance(res, list):
+            results.extend(res)
+        else:
+            results.append(res)
+    if errors:
+        known0 = {k["key"] for k in load_known().get("findings", []) if k.get("status") == "known"}
+        if not any(v.fullkey(prop) not in known0 for res in results for v in res.violations):
+            for e in errors:
+                print("ANALYSIS-ERROR property=%s: %s" % (prop, e))
+            return 2
+        for e in errors:
+            print("ANALYSIS-ERROR (rule skipped) property=%s: %s" % (prop, e))
     known = load_known()
     known_keys = {k["key"]: k for k in known.get("findings", []) if k.get("status") == "known"}
     viols = []
